@@ -835,6 +835,11 @@ func (r *envelopingReader) Read(data []byte) (n int, err error) {
 	}
 	if len(data) > offset {
 		n, err = r.current.Read(data[offset:])
+		if offset+n > 0 && errors.Is(err, io.EOF) {
+			// That is the end of the current message (possibly a zero-length
+			// one), not of the stream: the next call looks for the next message.
+			err = nil
+		}
 	}
 	return offset + n, err
 }
